@@ -16,7 +16,8 @@ from ..tla import MachineryError
 from .c16 import PROCS, enumerate_model, obs_cases, run_cases, sample_sizes, select
 
 QUICK = {}
-THOROUGH = {"VarSet": "{1, 2}", "OptSet": '{"default", "tight"}', "MeshSet": "{TRUE, FALSE}"}
+THOROUGH = {"VarSet": "{1, 2}", "OptSet": '{"default", "tight"}', "MeshSet": "{TRUE, FALSE}", "RateSet": '{"loose", "tight"}',
+            "GridModelMax": "1000"}
 INVERTED = ("load", "storage", "dcline")
 NOOPT = 1000000000
 
@@ -45,7 +46,7 @@ def run(tier, seed, replay=None):
         for name, st, raw in r.violations:
             v.divergence("model-level: %s" % name, None)
         mstates, mtrans, n_model = r.distinct, r.generated, len(states)
-        states = select(states, tier, seed, *sample_sizes(tier, (400, 900)))
+        states = select(states, tier, seed, *sample_sizes(tier, (250, 450)))
     t1 = time.time()
     cases = run_cases(v, states, tier, seed, replay)
     t2 = time.time()
@@ -55,6 +56,10 @@ def run(tier, seed, replay=None):
         c = cases[i]
         if name.startswith("Harness_"):
             raise MachineryError("harness instantiation differs from Inst(cfg): cfg=%s rb=%s" % (c["cfg"], c["rb"]))
+        if name.startswith("Conf_"):
+            v.divergence("%s: the transcription of make_objective.py in OpfDef.tla (CodeRowP / CodeRowQ, predicted classes %s) "
+                         "does not give this tree's res_cost" % (name, sorted(c["req"]["dev"])), c["cfg"])
+            continue
         failed.setdefault(i, set()).add(name)
         kinds = {e: k for e, k in c["cfg"]["kind"].items() if k != "none"}
         v.violation("C17|%s|%s" % (name, dev_key(c)),
@@ -64,9 +69,6 @@ def run(tier, seed, replay=None):
                     {"cfg": c["cfg"], "req": c["req"], "o": c["o"]})
     conv = [c for c in cases if c["o"]["conv"]]
     for i, c in enumerate(cases):
-        if c["o"]["conv"] and c["req"]["dev"] and "C17_CostIsUserFunction" not in failed.get(i, ()):
-            v.divergence("Opf.tla (transcription of make_objective.py) predicts deviation %s but res_cost is the user's function"
-                         % sorted(c["req"]["dev"]), c["cfg"])
         if c["o"]["conv"] and c["req"]["gridknown"] and c["req"]["gridopt"] == NOOPT:
             v.divergence("OPF converged although the integer dispatch grid has no feasible point", c["cfg"])
         if c["o"]["err"] not in ("", "OPFNotConverged"):
@@ -88,7 +90,7 @@ def run(tier, seed, replay=None):
         "rule": "configurations of Opf.tla (slice cost: every assignment of cost kinds to at most MaxCosted of the six element "
                 "types x coefficient variant x controllable = all / only the costed elements x AC (loose limits, both solver "
                 "option sets) / DC (p limit level x branch rating level) x dcline lossless / lossy when costed); quick: seeded "
-                "sample, thorough: all; non-trivial = converged and a cost row that is not a plain linear cost on a generating "
+                "sample, thorough: all DC configurations and a seeded sample of 4000 AC ones; non-trivial = converged and a cost row that is not a plain linear cost on a generating "
                 "element (c0, c2, pwl, reactive cost, or any cost on load / storage / dcline)",
         "samples": [{"cfg": c["cfg"], "req": c["req"], "o": {k: c["o"][k] for k in ("conv", "p", "q", "cost")}}
                     for c in (cases[0], cases[len(cases) // 2], cases[-1])],
